@@ -128,6 +128,23 @@ RULES = {
 # element rules reached through a container's collection field: container -> (field, element builder)
 ELEMENTS = {"SenderReportBuilder": ("report_blocks", "ReportBlockBuilder"), "ReceiverReportBuilder": ("report_blocks", "ReportBlockBuilder"),
             "SdesBuilder": ("chunks", "SdesChunkBuilder"), "SdesChunkBuilder": ("items", "SdesItemBuilder")}
+TABLE_VARIANTS = {v for rs in RULES.values() for r in rs for v in r.variants} | {"FciWrongFeedbackPacketType", "TooManyNack", "NonLastCompoundPacketPadding", "MissingFci", "OutputTooSmall"}
+
+
+def total_size_err(S, s, e):
+    """an Err outcome is the total-size rule: some accepting outcome's size expression N (over the same configuration
+    symbols) is entailed > MAX_BYTES on this path and one payload field of the error equals N"""
+    for s2, v2 in S.size_outs:
+        if v2.variant != "Ok" or not isinstance(v2.fields["0"], IntV):
+            continue
+        N = v2.fields["0"].l
+        if not solver.entails(s.pc, flit(gt(N, MAX_BYTES))):
+            continue
+        if any(isinstance(x, IntV) and solver.entails(s.pc, flit(eq(x.l, N))) for x in e.fields.values()):
+            return True
+    return False
+
+
 WHOLE_PACKETS = ("AppBuilder", "UnknownBuilder", "ByeBuilder", "SenderReportBuilder", "ReceiverReportBuilder", "SdesBuilder",
                  "TransportFeedbackBuilder", "PayloadFeedbackBuilder")
 
@@ -218,6 +235,11 @@ def run(ctx, res):
                 elif name == "CompoundBuilder" and e.variant == "NonLastCompoundPacketPadding":
                     good = compound_padding_err(S, s)
                     res.ob(good, "limit-sound", B.cs, "CompoundBuilder: NonLastCompoundPacketPadding only when a member other than the last requests padding", pc=s.pc)
+                elif name in WHOLE_PACKETS and e.variant not in TABLE_VARIANTS and total_size_err(S, s, e):
+                    # the statement's last rule ("a total size above 65536 words") names no variant: an error the table has no
+                    # row for is that rule when, on its path, the size an accepting path returns exceeds what the length field
+                    # can express and the error carries that size
+                    res.ob(True, "limit-sound", B.cs, f"{name}: Err({e.variant}) only when the total size exceeds the 16-bit length field, carrying that size", pc=s.pc)
                 else:
                     res.ob(False, "limit-sound", B.cs, f"{name}: Err({e.variant}) corresponds to a rule of the limits table", detail=repr(e)[:200], pc=s.pc)
             elif v.variant == "Ok":
